@@ -37,9 +37,9 @@ Cat8 == Mk(<< <<"elem","a",1,"">>, <<"elem","a",2,"">>, <<"elem","b",3,"">>, <<"
               <<"attr","a",6,"1">>, <<"text","",6,"1">>, <<"elem","b",5,"">>, <<"text","",4,"2">>, <<"elem","a",3,"">>,
               <<"elem","b",2,"">> >>)
 \* two identical branches four levels deep: nodes at the same depth and the same sibling positions in different branches
-\* (lossy position keys, caches keyed by "place")      a( b( a( b( a ) ) ), b( a( b( a ) ) ) )
-Cat9 == Mk(<< <<"elem","a",1,"">>, <<"elem","b",2,"">>, <<"elem","a",3,"">>, <<"elem","b",4,"">>, <<"elem","a",5,"">>,
-              <<"elem","b",2,"">>, <<"elem","a",7,"">>, <<"elem","b",8,"">>, <<"elem","a",9,"">> >>)
+\* (lossy position keys, caches keyed by "place")      b( b( b( a( '1' ) ) ), b( b( a( '1' ) ) ) ): the two a are delivered one after the other by //a
+Cat9 == Mk(<< <<"elem","b",1,"">>, <<"elem","b",2,"">>, <<"elem","b",3,"">>, <<"elem","a",4,"">>, <<"text","",5,"1">>,
+              <<"elem","b",2,"">>, <<"elem","b",7,"">>, <<"elem","a",8,"">>, <<"text","",9,"1">> >>)
 Catalogue == <<Cat1, Cat2, Cat3, Cat4, Cat5, Cat6, Cat7, Cat8, Cat9>>
 
 (***************************************************************************)
